@@ -64,8 +64,11 @@ func (c12) execSheetB(f []string) (string, []Fail) {
 			fails = append(fails, Fail{"template.not-accepted", "the sheet printed by --template is read as: " + res})
 		}
 	}
-	if r2 := run(); r2 != res {
-		fails = append(fails, Fail{"sheet.nondeterministic", "two readings of the same sheet differ: " + res + "  VERSUS  " + r2})
+	// determinism over a second reading: one text in four (a reading is expensive at this point of the run, see c12GenBytes)
+	if len(text)%4 == 0 {
+		if r2 := run(); r2 != res {
+			fails = append(fails, Fail{"sheet.nondeterministic", "two readings of the same sheet differ: " + res + "  VERSUS  " + r2})
+		}
 	}
 	return res, fails
 }
@@ -286,9 +289,11 @@ func c12GenBytes(rng *rand.Rand, tier string, emit func(string)) {
 	}
 	hb(obimultiplex.CLIConfigTemplate())
 	hb(strings.ReplaceAll(obimultiplex.CLIConfigTemplate(), "\n", "\r\n"))
+	// (every ReadNGSFilter call adds a detector to the process-global mimetype tree and the later readings run all of them: these
+	// cases come last, when a reading costs ~25 ms; the thorough tier runs 8 seeds, the volume per seed stays the one of quick)
 	n := 500
 	if tier == "thorough" {
-		n = 1500
+		n = 600
 	}
 	for i := 0; i < n; i++ {
 		csv := rng.Intn(4) != 0
@@ -323,7 +328,7 @@ func c12GenBytes(rng *rand.Rand, tier string, emit func(string)) {
 	// worker constructions on one library object
 	nw := 60
 	if tier == "thorough" {
-		nw = 150
+		nw = 80
 	}
 	for i := 0; i < nw; i++ {
 		c := c12Library(rng)
